@@ -76,7 +76,7 @@ impl Target for CaTarget {
         let roa = |s: String| RoaConfiguration::from_str(&s).unwrap();
         let payload = |s: String| RoaPayload::from_str(&s).unwrap();
         match name {
-            "ok" => {
+            "ok" | "okc" => {
                 // a ROA nobody else configures
                 let updates = RoaConfigurationUpdates {
                     added: vec![roa(format!(
